@@ -112,6 +112,13 @@ class SeekableFile(io.BytesIO):
         self.key = key
         self.closed_count = 0
         self.close_raises = None
+        self.shrink_to = None  # storage fault: the file was truncated to this size after it was measured
+
+    def read(self, n=-1):
+        if self.shrink_to is not None:
+            room = max(0, self.shrink_to - self.tell())
+            n = room if (n is None or n < 0) else min(n, room)
+        return io.BytesIO.read(self, n)
 
     def close(self):
         self.closed_count += 1
@@ -300,6 +307,9 @@ class ScriptedApp:
             ra = sc.get("raise_at")
             if ra and ra[0] == "file_close" and kind == "file":
                 f.close_raises = ra[1]
+            if sc.get("file_shrinks") and kind == "file":
+                # seek()/tell() keep reporting the old size, read() meets the new end of the file
+                f.shrink_to = max(f.tell(), len(data) - sc["file_shrinks"])
             rec["file"] = f
             rec["returned"] = True
             self._finish(rec)
